@@ -515,12 +515,6 @@ class ObjEvaluator(Evaluator):
             if f[0] == "boundmethod":
                 return self.call_bound(f[2], f[1], args, kwargs, node)
             return f[1](*args, **kwargs)
-        if isinstance(f, tuple) and f and f[0] == "builtin" and f[1] in ("dict",):
-            kwargs = {k.arg: self.eval(k.value, env) for k in node.keywords if k.arg is not None}
-            args = [self.eval(a, env) for a in node.args]
-            out = dict(args[0]) if args and isinstance(args[0], dict) else {}
-            out.update(kwargs)
-            return out
         self.hand_down(node.func, f)
         return Evaluator.e_Call(self, node, env)
 
@@ -977,8 +971,28 @@ class ObjEvaluator(Evaluator):
                 return [SStr(c).simplify() for c in pieces]
             if attr == "replace" and len(args) == 2 and all(isinstance(x, str) for x in args):
                 return SStr([p.replace(args[0], args[1]) if isinstance(p, str) else p for p in s.parts]).simplify()
+            if attr in ("partition", "rpartition") and len(args) == 1 and isinstance(args[0], str):
+                sep = args[0]
+                pos = None
+                order = range(len(s.parts)) if attr == "partition" else range(len(s.parts) - 1, -1, -1)
+                for k_ in order:
+                    p_ = s.parts[k_]
+                    if isinstance(p_, str) and sep in p_:
+                        pos = k_
+                        break
+                if pos is None:
+                    whole = s.simplify()
+                    return (whole, "", "") if attr == "partition" else ("", "", whole)
+                a_, _s, b_ = s.parts[pos].partition(sep) if attr == "partition" else s.parts[pos].rpartition(sep)
+                return (SStr(s.parts[:pos] + [a_]).simplify(), sep, SStr([b_] + s.parts[pos + 1:]).simplify())
+            if attr in ("startswith", "endswith") and len(args) == 1 and isinstance(args[0], tuple) and all(isinstance(x_, str) for x_ in args[0]):
+                return any(self.method_call(base, attr, [x_], kwargs, node) for x_ in args[0])
             if attr in ("startswith", "endswith") and len(args) == 1 and isinstance(args[0], str):
                 edge = s.parts[0] if attr == "startswith" else s.parts[-1] if s.parts else ""
+                if isinstance(edge, (Field, Text)) or (isinstance(edge, Sym)):
+                    # a number / word at the edge: the literal prefixes looked for are record tags and keywords, not numbers
+                    if isinstance(edge, (Field, Text)):
+                        return False
                 if isinstance(edge, str) and len(edge) >= len(args[0]):
                     return getattr(edge, attr)(args[0])
                 if isinstance(base, str):
